@@ -430,8 +430,39 @@ impl<'tcx> Ex<'tcx> {
             Const::Unevaluated(u, _) => {
                 o.push_str(",\"def\":");
                 esc(&self.path(u.def), o);
-                if u.promoted.is_some() {
+                if let Some(pidx) = u.promoted {
                     o.push_str(",\"promoted\":1");
+                    // the promoted body's ADT aggregates (e.g. `&Capability::SyncReset`): (adt, variant) pairs
+                    if let Some(ld) = u.def.as_local() {
+                        let proms = tcx.promoted_mir(ld.to_def_id());
+                        if let Some(pb) = proms.get(pidx) {
+                            let mut first = true;
+                            for bb in pb.basic_blocks.iter() {
+                                for st in &bb.statements {
+                                    if let StatementKind::Assign(b) = &st.kind {
+                                        if let Rvalue::Aggregate(ak, _) = &b.1 {
+                                            if let AggregateKind::Adt(d, vi, _, _, _) = &**ak {
+                                                if first {
+                                                    o.push_str(",\"paggs\":[");
+                                                    first = false;
+                                                } else {
+                                                    o.push(',');
+                                                }
+                                                o.push('[');
+                                                esc(&self.path(*d), o);
+                                                o.push(',');
+                                                esc(tcx.adt_def(*d).variant(*vi).name.as_str(), o);
+                                                o.push(']');
+                                            }
+                                        }
+                                    }
+                                }
+                            }
+                            if !first {
+                                o.push(']');
+                            }
+                        }
+                    }
                 }
             }
             _ => {}
